@@ -168,6 +168,19 @@ def _call_name(c):
     return None
 
 
+def _has_return(node):
+    """a return statement that belongs to this function (not to a nested def / lambda)"""
+    stack = [node]
+    while stack:
+        n = stack.pop()
+        if isinstance(n, ast.Return):
+            return True
+        for ch in ast.iter_child_nodes(n):
+            if not isinstance(ch, (ast.FunctionDef, ast.AsyncFunctionDef, ast.Lambda, ast.ClassDef)):
+                stack.append(ch)
+    return False
+
+
 def _is_raise_only(stmts):
     return len(stmts) >= 1 and isinstance(stmts[-1], ast.Raise) and all(isinstance(s, (ast.Raise, ast.Expr)) for s in stmts)
 
@@ -319,6 +332,8 @@ def grc_steps(base, fv):
         if _contains_dangerous(st):
             steps.append("GExec")
             continue
+        if "GExec" not in steps and _has_return(st):
+            raise Unsupported("_generate_record_class returns at line %d, before exec (statement order is no longer dominance)" % st.lineno)
         # for _, fieldname in fields: if not is_valid_field_name(fieldname): raise
         if isinstance(st, ast.For) and isinstance(st.iter, ast.Name) and st.iter.id == "fields" \
                 and isinstance(st.target, ast.Tuple) and len(st.target.elts) == 2 and all(isinstance(e, ast.Name) for e in st.target.elts):
@@ -385,6 +400,8 @@ def recordfield_facts(base, fv):
     check = None
     check_at = ft_at = None
     for i, st in enumerate(_body_wo_doc(node)):
+        if ft_at is None and _has_return(st):
+            raise Unsupported("RecordField.__init__ returns at line %d before fieldtype()" % st.lineno)
         info = _guard_raises(st, lambda n: _validator_call(n, fv.default_check))
         if info and info[0] == "name" and check_at is None:
             check_at, check = i, info[1]
@@ -420,6 +437,8 @@ def fieldtype_facts(base):
     strips_one = False
     strip_at = None
     for i, st in enumerate(body):
+        if guard_at is None and _has_return(st):
+            raise Unsupported("fieldtype returns at line %d before the whitelist test" % st.lineno)
         if resolve_at is None and any(_call_name(c) in RESOLVERS for c in _calls(st)):
             resolve_at = i
         # if clspath not in WHITELIST: raise
@@ -591,6 +610,32 @@ def template_use(base):
     return True
 
 
+def code_constants(base):
+    """the string constants of _generate_record_class that the render model takes as facts: the tail appended to
+    init_code, and args / init_code / unpack_code of the keyword path"""
+    fn = getattr(base._generate_record_class, "__wrapped__", base._generate_record_class)
+    node = _fn_ast(fn)
+    tail = None
+    kw = {}
+    for st in _body_wo_doc(node):
+        if isinstance(st, ast.AugAssign) and isinstance(st.target, ast.Name) and st.target.id == "init_code" \
+                and isinstance(st.op, ast.Add) and isinstance(st.value, ast.Constant) and isinstance(st.value.value, str):
+            if tail is not None:
+                raise Unsupported("_generate_record_class appends two constants to init_code")
+            tail = st.value.value
+        if isinstance(st, ast.If) and any(isinstance(n, ast.Name) and n.id == "contains_keyword" for n in ast.walk(st.test)):
+            for b in st.body:
+                if isinstance(b, ast.Assign) and len(b.targets) == 1 and isinstance(b.targets[0], ast.Name) \
+                        and b.targets[0].id in ("args", "init_code", "unpack_code") \
+                        and isinstance(b.value, ast.Constant) and isinstance(b.value.value, str):
+                    kw[b.targets[0].id] = b.value.value
+                else:
+                    raise Unsupported("_generate_record_class: keyword path statement at line %d" % b.lineno)
+    if tail is None or set(kw) != {"args", "init_code", "unpack_code"}:
+        raise Unsupported("_generate_record_class: init_code tail / keyword path constants not found")
+    return tail, kw
+
+
 # ---------------------------------------------------------------------------------------------
 
 def gen_names():
@@ -603,6 +648,7 @@ def gen_names():
     routes = route_facts(base)
     pieces = template_pieces(base)
     template_use(base)
+    tail, kwc = code_constants(base)
 
     field_re = regex_fact(*fv.regex, where="RE_VALID_FIELD_NAME")
     if type_re[2] == "nomatch":
@@ -647,7 +693,11 @@ def gen_names():
     out += "  nf_grc_callers := %s;\n" % clist([cstrN(x) for x in callers])
     out += "  nf_routes := %s;\n" % clist([cpair(cstrN(k), cbool(v)) for k, v in routes], sep=";\n    ")
     out += "  nf_template := %s;\n" % clist(pieces, sep=";\n    ")
-    out += "  nf_plain_default_types := %s\n" % clist([cstrN(x) for x in plain])
+    out += "  nf_plain_default_types := %s;\n" % clist([cstrN(x) for x in plain])
+    out += "  nf_init_tail := %s;\n" % cstrN(tail)
+    out += "  nf_kw_args := %s;\n" % cstrN(kwc["args"])
+    out += "  nf_kw_init := %s;\n" % cstrN(kwc["init_code"])
+    out += "  nf_kw_unpack := %s\n" % cstrN(kwc["unpack_code"])
     out += "|}.\n"
     write_if_changed(GEN / "Gen_names.v", out)
 
